@@ -828,6 +828,12 @@ func (pf *PathFlow) resolveAt(v ssa.Value, fi int, depth int) ssa.Value {
 				return pf.resolveAt(el, fi, depth+1)
 			}
 		}
+		// a slice-typed struct field assigned exactly once (a table of steps kept in the object)
+		if _, isSlice := x.Type().Underlying().(*types.Slice); isSlice && x.Op == token.MUL {
+			if sv := c09SingleStoreField(x, pf.Funcs); sv != nil {
+				return sv
+			}
+		}
 		// load of a local cell (possibly captured by the closure being run) with exactly one store
 		if x.Op == token.MUL {
 			addr, afi := x.X, fi
@@ -1369,6 +1375,8 @@ func (pf *PathFlow) execCall(ci ssa.CallInstruction, replay bool, g PState, m pf
 	if cal == nil || len(cal.Blocks) == 0 || pf.Follow == nil || !pf.Follow(cal) {
 		if cal == nil {
 			pf.unresolvedCall(ci)
+		} else if len(cal.Blocks) > 0 && pf.Follow != nil && ci.Parent() != nil && cal.Pkg != nil && cal.Pkg == ci.Parent().Pkg {
+			pf.problem("call of %s from %s not followed", cal.Name(), ci.Parent().Name())
 		}
 		// closures handed to an external function
 		out := gs
@@ -1573,8 +1581,19 @@ func (m *pfMem) evalConst(v ssa.Value, depth int, res func(ssa.Value) ssa.Value)
 		if builtinName(x) == "len" && len(x.Call.Args) == 1 {
 			// len of a literal table
 			a := x.Call.Args[0]
-			if sl, ok := a.(*ssa.Slice); ok && sl.Low == nil && sl.High == nil {
-				a = sl.X
+			for i := 0; i < 6; i++ {
+				if sl, ok := a.(*ssa.Slice); ok && sl.Low == nil && sl.High == nil {
+					a = sl.X
+					continue
+				}
+				if _, isAlloc := a.(*ssa.Alloc); isAlloc || res == nil {
+					break
+				}
+				r := res(a)
+				if r == a {
+					break
+				}
+				a = r
 			}
 			if arr, ok := deref(a.Type()).Underlying().(*types.Array); ok {
 				if _, isAlloc := a.(*ssa.Alloc); isAlloc {
@@ -1685,6 +1704,66 @@ func (m *pfMem) enterBlock(from, to *ssa.BasicBlock, res func(ssa.Value) ssa.Val
 	}
 }
 
+// tableArray: v is a literal table (a slice of, or pointer to, an array built
+// element by element), possibly reached through a local or captured variable,
+// a parameter, or a struct field that is assigned exactly once; returns the array.
+func (pf *PathFlow) tableArray(v ssa.Value) *ssa.Alloc {
+	for i := 0; i < 6 && v != nil; i++ {
+		switch x := v.(type) {
+		case *ssa.Slice:
+			if x.Low != nil {
+				return nil
+			}
+			v = x.X
+			continue
+		case *ssa.Alloc:
+			if _, ok := deref(x.Type()).Underlying().(*types.Array); ok {
+				return x
+			}
+			return nil
+		}
+		r := pf.Resolve(v)
+		if r == v {
+			r = c09SingleStoreField(v, pf.Funcs)
+		}
+		if r == nil || r == v {
+			return nil
+		}
+		v = r
+	}
+	return nil
+}
+
+// c09SingleStoreField: v loads a struct field that is assigned exactly once
+// in funcs (typically by the constructor); returns the stored value.
+func c09SingleStoreField(v ssa.Value, funcs []*ssa.Function) ssa.Value {
+	u, ok := v.(*ssa.UnOp)
+	if !ok || u.Op != token.MUL {
+		return nil
+	}
+	fa, ok := u.X.(*ssa.FieldAddr)
+	if !ok {
+		return nil
+	}
+	id := fieldIDOfAddr(fa)
+	var val ssa.Value
+	n := 0
+	for _, fn := range funcs {
+		allInstrs(fn, func(in ssa.Instruction) {
+			if st, ok := in.(*ssa.Store); ok {
+				if sfa, ok := st.Addr.(*ssa.FieldAddr); ok && fieldIDOfAddr(sfa) == id {
+					n++
+					val = st.Val
+				}
+			}
+		})
+	}
+	if n == 1 {
+		return val
+	}
+	return nil
+}
+
 // tableElem: v loads element k (a constant on this path) of a literal
 // array/slice built in the same function; returns the element stored there.
 func (pf *PathFlow) tableElem(v ssa.Value) ssa.Value {
@@ -1701,12 +1780,8 @@ func (pf *PathFlow) tableElem(v ssa.Value) ssa.Value {
 		return nil
 	}
 	idx, _ := constant.Int64Val(c)
-	base := ia.X
-	if sl, ok := base.(*ssa.Slice); ok && sl.Low == nil {
-		base = sl.X
-	}
-	arr, ok := base.(*ssa.Alloc)
-	if !ok {
+	arr := pf.tableArray(ia.X)
+	if arr == nil {
 		return nil
 	}
 	var found ssa.Value
